@@ -1,6 +1,7 @@
 SPECIFICATION SchedSpec
 CONSTANTS Messages <- MCMessages
           AsCoded = FALSE
+          Fixed = FALSE
           Gated = FALSE
           Mode = "http"
           MaxMsgs = 1
